@@ -65,7 +65,7 @@ def check(beh):
     tol = tol_exact if d["exact"] else tol_krylov
     fails = []
     thr = d["thr"]
-    if not d["exact"]:
+    if not d["exact"] and not d.get("judge_degenerate"):
         # Krylov-space statements presuppose a non-degenerate spectrum (distinct eigenvalues): with repeated eigenvalues Lanczos breaks
         # down and the library's handling of that is judged by the dedicated breakdown instances of C09, not on sampled values here
         ev = torch.linalg.eigvalsh(A)
@@ -157,9 +157,19 @@ def check(beh):
             Q = D(Q)
             w = w.to(torch.float64)
             k = Q.shape[-1]
-            close(Q.mT @ Q, torch.eye(k, dtype=torch.float64).expand(*Q.shape[:-2], k, k), "Q^T Q != I")
-            if d["exact"] or k == n:
-                close(Q @ torch.diag_embed(w) @ Q.mT, A, "Q diag(w) Q^T != A")
+            G = Q.mT @ Q
+            ek = torch.eye(k, dtype=torch.float64).expand(*Q.shape[:-2], k, k)
+            if d.get("judge_degenerate"):
+                # Lanczos diagonalization: eigenvectors of (round-off) negative Ritz values are masked, i.e. zero columns; the others orthonormal,
+                # and Q diag(w) Q^T is the orthogonal compression of A onto the space Q spans
+                kept = (G.diagonal(dim1=-1, dim2=-2) > 0.5).to(torch.float64)
+                close(G, torch.diag_embed(kept), "Q^T Q is not a 0/1 diagonal (orthonormal columns, masked ones zero)", tol_krylov * 10)
+                comp, rank = _compression(Q, A)
+                close(Q @ torch.diag_embed(w) @ Q.mT, comp, "Q diag(w) Q^T is not the orthogonal compression of A onto span(Q) (rank %d)" % rank, tol_krylov * 10)
+            else:
+                close(G, ek, "Q^T Q != I")
+                if d["exact"] or k == n:
+                    close(Q @ torch.diag_embed(w) @ Q.mT, A, "Q diag(w) Q^T != A")
         elif rel == "eigvals":
             close(res.to(torch.float64).sort(-1)[0], torch.linalg.eigvalsh(A), "eigenvalues differ")
         elif rel == "svd":
